@@ -4,89 +4,103 @@
    functions of an abstract state) and its soundness is a hypothesis naming C01/C02.  The flag as a
    memory location is modelled only up to "conflicting unordered accesses to a non-atomic object";
    real interleavings and the C++ memory model are runtime behaviour (ThreadSanitizer, checks/C25.py).
+
+   Two statements are indexed by constants regenerated from the source (translate/stop_flag.py) and are
+   refutations today:
+     c25_state_after_stop  (Gen_StopFlag.poll_after_conflict = true): search() polls the flag between
+        propagate() finding a conflict and the handling of that conflict; a level-0 conflict is then lost and
+        the NEXT check-sat can answer sat on an unsatisfiable problem.  Full statement
+            forall sound instantiations, consistent_after_stop        -- FALSE today, the `then` branch exhibits one
+     c25_flag_discipline   (Gen_StopFlag.atomic = false): plain bool flags, a racy trace exists.
    Theorems only; proofs are in Conc/StopFlagProofs.v. *)
 From Coq Require Import List Arith.
 Import ListNotations.
 From OsmtV.Conc Require Import StopFlag StopFlagProofs Gen_StopFlag.
 
-(* A stop requested before any micro-step k: the solver's answer is unknown or exactly the answer of
-   the undisturbed run — for every instantiation of the inner steps, no hypothesis. *)
-Theorem stop_answer_safe : forall S elim_work elim_cleanup search_init prop rest cancel0 restart k fuel (c : cfg S) r,
-  result (run S elim_work elim_cleanup search_init prop rest cancel0 restart fuel (stop_at_step k) c) = Some r ->
-  r = LUndef \/ result (run S elim_work elim_cleanup search_init prop rest cancel0 restart fuel nostop c) = Some r.
+(* A stop requested before any micro-step k: the answer of THIS call is unknown or exactly the answer of
+   the undisturbed run — for every instantiation of the inner steps and either form of the poll after
+   propagate(); no hypothesis. *)
+Theorem stop_answer_safe : forall S pac elim_work elim_cleanup search_init prop rest cancel0 restart k fuel (c : cfg S) r,
+  result (run S pac elim_work elim_cleanup search_init prop rest cancel0 restart fuel (stop_at_step k) c) = Some r ->
+  r = LUndef \/ result (run S pac elim_work elim_cleanup search_init prop rest cancel0 restart fuel nostop c) = Some r.
 Proof. exact StopFlagProofs.stop_answer_safe. Qed.
 Print Assumptions stop_answer_safe.
 
 (* The same at the level of MainSolver::check, for every monotone behaviour of the flag. *)
-Theorem check_stop_answer_safe : forall S elim_work elim_cleanup search_init prop rest cancel0 restart
+Theorem check_stop_answer_safe : forall S pac elim_work elim_cleanup search_init prop rest cancel0 restart
     simplify is_ok simp_frame conflict_frame compute_model clear_search do_simp fuel f (m : msolver S) r m',
   monotone f ->
-  check S elim_work elim_cleanup search_init prop rest cancel0 restart simplify is_ok simp_frame conflict_frame
+  check S pac elim_work elim_cleanup search_init prop rest cancel0 restart simplify is_ok simp_frame conflict_frame
         compute_model clear_search do_simp fuel f m = Some (r, m') ->
   r = SUnknown \/ exists m'',
-    check S elim_work elim_cleanup search_init prop rest cancel0 restart simplify is_ok simp_frame conflict_frame
+    check S pac elim_work elim_cleanup search_init prop rest cancel0 restart simplify is_ok simp_frame conflict_frame
           compute_model clear_search do_simp fuel nostop m = Some (r, m'').
 Proof. exact StopFlagProofs.check_stop_answer_safe. Qed.
 Print Assumptions check_stop_answer_safe.
 
 (* Exact form: a request that becomes visible at poll n gives unknown iff the undisturbed run polls
    more than n times (CDCL solver: a visible request is always honoured). *)
-Theorem stop_prediction : forall S elim_work elim_cleanup search_init prop rest cancel0 restart n fuel do_simp (s : S) r0,
+Theorem stop_prediction : forall S pac elim_work elim_cleanup search_init prop rest cancel0 restart n fuel do_simp (s : S) r0,
   let c0 := entry do_simp s in
-  result (run S elim_work elim_cleanup search_init prop rest cancel0 restart fuel nostop c0) = Some r0 ->
-  result (run S elim_work elim_cleanup search_init prop rest cancel0 restart (fuel + 4) (stop_at_poll n) c0)
-  = Some (predict (c_polls (run S elim_work elim_cleanup search_init prop rest cancel0 restart fuel nostop c0)) r0 n).
+  result (run S pac elim_work elim_cleanup search_init prop rest cancel0 restart fuel nostop c0) = Some r0 ->
+  result (run S pac elim_work elim_cleanup search_init prop rest cancel0 restart (fuel + 4) (stop_at_poll n) c0)
+  = Some (predict (c_polls (run S pac elim_work elim_cleanup search_init prop rest cancel0 restart fuel nostop c0)) r0 n).
 Proof. exact StopFlagProofs.predict_correct. Qed.
 Print Assumptions stop_prediction.
 
-(* Relative to sound inner steps (hypotheses = C01/C02 for each piece of work and preservation of a
-   state invariant Good): whatever the flag does — set, reset, set again, at any poll — check-sat
-   answers unknown or the truth, and leaves a good state. *)
-Theorem stop_answer_correct : forall S elim_work elim_cleanup search_init prop rest cancel0 restart
-    (is_sat : Prop) (Good : S -> Prop),
-  (forall s s' o, Good s -> elim_work s = (s', o) -> Good s' /\ (o = EConflict -> ~ is_sat)) ->
-  (forall s, Good s -> Good (elim_cleanup s)) ->
-  (forall s s' o, Good s -> search_init s = (s', o) -> Good s' /\ (o = Some LTrue -> is_sat) /\ (o = Some LFalse -> ~ is_sat)) ->
-  (forall s, Good s -> Good (prop s)) ->
-  (forall s s' o, Good s -> rest s = (s', o) -> Good s' /\ (o = Ret LTrue -> is_sat) /\ (o = Ret LFalse -> ~ is_sat)) ->
-  (forall s, Good s -> Good (cancel0 s)) ->
-  (forall s, Good s -> Good (restart s)) ->
-  forall simplify is_ok simp_frame conflict_frame compute_model clear_search,
-  (forall s s' b, Good s -> simplify s = (s', b) -> Good s' /\ (b = false -> ~ is_sat)) ->
-  (forall s, Good s -> is_ok s = false -> ~ is_sat) ->
-  (forall s, Good s -> Good (compute_model s)) ->
-  (forall s, Good s -> Good (clear_search s)) ->
+(* Relative to sound inner steps (sound_search / sound_main: C01/C02 for each piece of work, preservation
+   of a state invariant Good, cancelUntil(0) keeps Good on states without a pending conflict) and with the
+   conflict handled before the poll (pac = false): whatever the flag does — set, reset, set again, at any
+   poll — check-sat answers unknown or the truth, and leaves a good state. *)
+Theorem stop_answer_correct : forall S pac elim_work elim_cleanup search_init prop rest cancel0 restart
+    (is_sat : Prop) (Good NoPending : S -> Prop) simplify is_ok simp_frame conflict_frame compute_model clear_search,
+  pac = false ->
+  sound_search S elim_work elim_cleanup search_init prop rest cancel0 restart is_sat Good NoPending ->
+  sound_main S is_sat Good simplify is_ok compute_model clear_search ->
   forall do_simp fuel (f : flagfn) (m : msolver S) r m',
   GoodM S is_sat Good m ->
-  check S elim_work elim_cleanup search_init prop rest cancel0 restart simplify is_ok simp_frame conflict_frame
+  check S pac elim_work elim_cleanup search_init prop rest cancel0 restart simplify is_ok simp_frame conflict_frame
         compute_model clear_search do_simp fuel f m = Some (r, m') ->
   (r = SSat -> is_sat) /\ (r = SUnsat -> ~ is_sat) /\ GoodM S is_sat Good m'.
-Proof. exact StopFlagProofs.check_correct. Qed.
+Proof. intros. eapply StopFlagProofs.check_correct; eauto. Qed.
 Print Assumptions stop_answer_correct.
 
-(* After an unknown the unsat-frame bookkeeping is as before the call and the state is good, so (by
-   stop_answer_correct applied to m') the next check-sat on this stack is right again. *)
-Theorem stop_then_state_consistent : forall S elim_work elim_cleanup search_init prop rest cancel0 restart
-    (is_sat : Prop) (Good : S -> Prop),
-  (forall s s' o, Good s -> elim_work s = (s', o) -> Good s' /\ (o = EConflict -> ~ is_sat)) ->
-  (forall s, Good s -> Good (elim_cleanup s)) ->
-  (forall s s' o, Good s -> search_init s = (s', o) -> Good s' /\ (o = Some LTrue -> is_sat) /\ (o = Some LFalse -> ~ is_sat)) ->
-  (forall s, Good s -> Good (prop s)) ->
-  (forall s s' o, Good s -> rest s = (s', o) -> Good s' /\ (o = Ret LTrue -> is_sat) /\ (o = Ret LFalse -> ~ is_sat)) ->
-  (forall s, Good s -> Good (cancel0 s)) ->
-  (forall s, Good s -> Good (restart s)) ->
-  forall simplify is_ok simp_frame conflict_frame compute_model clear_search,
-  (forall s s' b, Good s -> simplify s = (s', b) -> Good s' /\ (b = false -> ~ is_sat)) ->
-  (forall s, Good s -> is_ok s = false -> ~ is_sat) ->
-  (forall s, Good s -> Good (compute_model s)) ->
-  (forall s, Good s -> Good (clear_search s)) ->
+(* After an unknown the unsat-frame bookkeeping is as before the call and the state is good (same
+   hypotheses). *)
+Theorem stop_then_state_consistent : forall S pac elim_work elim_cleanup search_init prop rest cancel0 restart
+    (is_sat : Prop) (Good NoPending : S -> Prop) simplify is_ok simp_frame conflict_frame compute_model clear_search,
+  pac = false ->
+  sound_search S elim_work elim_cleanup search_init prop rest cancel0 restart is_sat Good NoPending ->
+  sound_main S is_sat Good simplify is_ok compute_model clear_search ->
   forall do_simp fuel (f : flagfn) (m m' : msolver S),
   GoodM S is_sat Good m ->
-  check S elim_work elim_cleanup search_init prop rest cancel0 restart simplify is_ok simp_frame conflict_frame
+  check S pac elim_work elim_cleanup search_init prop rest cancel0 restart simplify is_ok simp_frame conflict_frame
         compute_model clear_search do_simp fuel f m = Some (SUnknown, m') ->
   frames_unsat m' = frames_unsat m /\ GoodM S is_sat Good m'.
-Proof. exact StopFlagProofs.stop_then_state_consistent. Qed.
+Proof. intros. eapply StopFlagProofs.stop_then_state_consistent; eauto. Qed.
 Print Assumptions stop_then_state_consistent.
+
+(* The state after an interrupted check-sat, for the CURRENT source: indexed by the constant regenerated
+   from search().  true (today): there is a sound instantiation for which a later check-sat answers sat
+   although the problem is unsatisfiable (stop_state_refuted: the stop lands on the poll right after
+   propagate() found the level-0 conflict, cancelUntil(0) forgets it).  false (after the fix): for all
+   sound instantiations every later check-sat answers unknown or the truth. *)
+Theorem c25_state_after_stop :
+  if Gen_StopFlag.poll_after_conflict
+  then exists S elim_work elim_cleanup search_init prop rest cancel0 restart (is_sat : Prop) Good NoPending
+              simplify is_ok simp_frame conflict_frame compute_model clear_search,
+         sound_search S elim_work elim_cleanup search_init prop rest cancel0 restart is_sat Good NoPending /\
+         sound_main S is_sat Good simplify is_ok compute_model clear_search /\
+         ~ consistent_after_stop S Gen_StopFlag.poll_after_conflict elim_work elim_cleanup search_init prop rest cancel0 restart
+             is_sat Good simplify is_ok simp_frame conflict_frame compute_model clear_search
+  else forall S elim_work elim_cleanup search_init prop rest cancel0 restart (is_sat : Prop) Good NoPending
+              simplify is_ok simp_frame conflict_frame compute_model clear_search,
+         sound_search S elim_work elim_cleanup search_init prop rest cancel0 restart is_sat Good NoPending ->
+         sound_main S is_sat Good simplify is_ok compute_model clear_search ->
+         consistent_after_stop S Gen_StopFlag.poll_after_conflict elim_work elim_cleanup search_init prop rest cancel0 restart
+             is_sat Good simplify is_ok simp_frame conflict_frame compute_model clear_search.
+Proof. exact (stop_state_discipline Gen_StopFlag.poll_after_conflict). Qed.
+Print Assumptions c25_state_after_stop.
 
 (* The lookahead solver (LookaheadSMTSolver::solve_), indexed by whether the source polls the flag in
    its loop: today it does not, so the flag is not an input of that loop at all (recorded liveness
@@ -103,7 +117,7 @@ Print Assumptions lookahead_ignores_stop.
 (* The flag as a memory location, indexed by the declared types found in the source:
    std::atomic<bool> -> no trace has a data race; plain bool -> the trace "one request during one
    poll" has one.  Full statement  c25_no_race : forall tr, data_race Gen_StopFlag.atomic tr = false
-   is FALSE while atomic = false; checks/C25.py reports that together with the ThreadSanitizer exhibit. *)
+   is FALSE while atomic = false. *)
 Theorem c25_flag_discipline :
   if Gen_StopFlag.atomic then forall tr, data_race Gen_StopFlag.atomic tr = false
   else exists tr, data_race Gen_StopFlag.atomic tr = true.
@@ -119,8 +133,14 @@ Print Assumptions c25_model_matches_source_polls.
 
 Example c25_nonvacuous :
   let sc := [EvElim EMore; EvElim EDone; EvInit None; EvRest Cont; EvRest (Ret LUndef); EvInit None; EvRest (Ret LFalse)] in
-  run_script true 100 nostop sc = (Some LFalse, 9) /\
-  run_script true 100 (stop_at_poll 5) sc = (Some LUndef, 7) /\
-  run_script true 100 (stop_at_step 17) sc = (Some LUndef, 9) /\
-  run_script true 100 (stop_at_poll 9) sc = (Some LFalse, 9).
+  run_script true true 100 nostop sc = (Some LFalse, 9) /\
+  run_script true true 100 (stop_at_poll 5) sc = (Some LUndef, 7) /\
+  run_script true true 100 (stop_at_step 17) sc = (Some LUndef, 9) /\
+  run_script true true 100 (stop_at_poll 9) sc = (Some LFalse, 9).
+Proof. vm_compute. repeat split. Qed.
+(* the poll after a conflict: taken when pac = true (7 polls), skipped when pac = false *)
+Example c25_nonvacuous_conflict :
+  let sc := [EvInit None; EvProp true; EvRest (Ret LFalse)] in
+  run_script true false 100 nostop sc = (Some LFalse, 3) /\ run_script false false 100 nostop sc = (Some LFalse, 2) /\
+  run_script true false 100 (stop_at_poll 2) sc = (Some LUndef, 4) /\ run_script false false 100 (stop_at_poll 2) sc = (Some LFalse, 2).
 Proof. vm_compute. repeat split. Qed.
